@@ -145,17 +145,17 @@ package js_ast
 //@ func InlinePrimitivesIntoTemplate
 //@   prop C09
 //@   opt frame-only
-//@   opt frame-forbid js_ast_ ast_
+//@   opt frame-forbid js_ast_
 //@   modifies nothing
 
 //@ func MaybeSimplifyNot
 //@   prop C09
 //@   opt frame-only
-//@   opt frame-forbid js_ast_ ast_
+//@   opt frame-forbid js_ast_
 //@   modifies nothing
 
 //@ func (HelperContext).SimplifyBooleanExpr
 //@   prop C09
 //@   opt frame-only
-//@   opt frame-forbid js_ast_ ast_
+//@   opt frame-forbid js_ast_
 //@   modifies nothing
